@@ -19,65 +19,55 @@ TEXT = {
          "model tied by exact correspondence; all 10 classes swept by the oracle",
          "exact real arithmetic; numpy row order assumed; float rounding by oracle 1e-7",
          "Lean 4 theorems over a group acting on an additive group + exact differential correspondence of the marshalling model"),
- "C04": ("proof: the three sensor back-rotation code paths equal R_k(m)^-1 on the sensor's own pixel slice, handedness flips its slice only, "
-         "pixel positions are per-sensor, and the cumulative-index split hands pixel_agg exactly each sensor's pixels for any shapes",
-         "stages proved separately, composition tied by exact correspondence; numpy reductions other than sum/min/max by oracle only",
-         "Lean 4 theorems on the marshalling model + exact differential correspondence"),
- "C05": ("proof: the slice-sum-delete loop returns per entry the sum over its nested leaves for any mix/order/nesting; frame change is additive and homogeneous in the local field",
-         "kernel linearity per class is kernel-level (oracle sweeps all classes, scalings 1e-6..1e6)",
-         "Lean 4 theorems (loop invariant by induction over the source list) + exact differential correspondence"),
- "C06": ("proof (partial): per-element formula of the marshalling model: row m of source l is its own field at its own clamped pose at that pixel; independent of other sensors; "
-         "shape/squeeze modelled and tied by exact correspondence; kernels' batch-level control flow pending",
-         "numpy row order assumed; kernel rowwise independence observed by the element-vs-single-call oracle over all classes and fields",
-         "Lean 4 theorems on the marshalling model + exact differential correspondence + element-wise oracle"),
+ "C04": ("proof: the three sensor back-rotation code paths equal R_k(m)^-1 on the sensor's own pixel slice, handedness flips its slice only, pixel positions are per-sensor, the cumulative-index split hands pixel_agg exactly each sensor's pixels for any shapes, and end to end the output element (l,m,k) is the reduction over sensor k's own readings",
+         'reductions other than sum/min/max are covered generically by the theorem and sampled by the oracle (mean/median/std/ptp); almost-static orientation paths by the oracle',
+         'Lean 4 theorems on the marshalling model + exact differential correspondence'),
+ "C05": ('proof: the slice-sum-delete loop returns per entry the sum over its nested leaves for any mix/order/nesting; sumup is the sum over the source axis (for every pixel_agg); frame change is additive and homogeneous in the local field; kernels linear in their excitation: Dipole, segment, Cuboid, Triangle, Tetrahedron (all fields), Circle',
+         'Cylinder / CylinderSegment / TriangularMesh kernel linearity by oracle (scalings 1e-6..1e6)',
+         'Lean 4 theorems (loop invariant by induction over the source list; algebra over R on kernel ports) + exact level2 and IEEE-double kern correspondence'),
+ "C06": ('proof: the whole marshalling pipeline equals the pointwise specification (level2_refines) with documented shape, size and row-major addressing; squeeze only drops 1-axes; batch-level control flow inside kernels proved row-wise for the whole TriangularMesh batch (flat triangle call, reshape/split sums, row-grouping loop) and both branches of the Polyline batch',
+         'numpy row order assumed and exercised exactly; CylinderSegment all-on-surface early return and the cel n<10 / cel_iter n<15 switches by the element-vs-single-call oracle',
+         'Lean 4 theorems on the marshalling and batch models + exact level2/trimesh correspondence + IEEE-double trimesh-batch and poly correspondence + element-wise oracle'),
  "C08": ("proof: for every fault schedule of the computation between path tiling and restore, object paths are exactly restored; the position of the restore "
          "(finally block, saved originals) is extracted from the source AST on every run so that removing it breaks the proof",
          "attributes other than the paths and caller arrays are not in the model: deep-snapshot oracle over all failure points of the property text",
          "Lean 4 theorem over a state-machine model with generated exit skeleton (Gen/Exits) + snapshot oracle with fault injection"),
- "C07": ("proof (partial): the functional interface's rank table (regenerated from every registered class each run) is rank+1 for every parameter, hence single values "
-         "are tiled and stacks taken per instance, row i gets value or value[i]; wrappers/core/dataframe by cross-interface oracle",
-         "rank of one value read from a valid instance (generator); delegation glue not modelled",
-         "Lean 4 decide over the generated table + tiling lemma; cross-interface differential oracle on all classes and call forms"),
- "C02": ("proof: for every magnet wrapper's field-selector dispatch (core as a parameter, all mask combinations incl. surface/edge/special cases), Sphere and Dipole in full: B = mu0 H + J and J = mu0 M; "
-         "Sphere's J is the indicator of the ball; the source's mu_0 sites are regenerated each run (one known finding: setter literal)",
-         "mask = geometric inside predicate proved for Sphere only; other classes by stratified oracle; exact real arithmetic",
-         "Lean 4 theorems (algebra over R with arbitrary mu0) on hand-written wrapper models + generated constant-site table + kernel correspondence in IEEE double + residual oracle"),
- "C12": ("proof (partial): exact homogeneity in a common length factor, including the scale-freeness of every internal branch decision, for Dipole (-3), Sphere (0, inside/outside switch), "
-         "the straight segment (-1, foot-point case split) and the Cuboid (kernel factors, octant reflection, all wrapper masks); linearity in excitation for Sphere; other classes by rescaling oracle over 1e-9..1e9",
-         "exact real arithmetic; Cylinder/Segment/Circle/Triangle kernels not ported; TriangularMesh small-scale failure is a recorded finding",
-         "Lean 4 theorems over R on kernel ports tied by IEEE-double correspondence + rescaling oracle"),
- "C01": ("proof (partial): Dipole kernel = point-dipole formula; the Biot-Savart integral of a straight filament in closed form by FTC; Sphere solution (with C13/C14); wrappers add exactly the interior term (C02); "
-         "frame change (C03). Other closed forms vs their defining integrals: not shown by theorem, checked by numerical quadrature of the integrals for all 10 classes",
-         "Mathlib lacks elliptic-integral theory and surface integrals over triangles/cylinder shells; exact real arithmetic",
-         "Lean 4 theorems (interval integral via FTC, algebra) on kernel ports tied by IEEE-double correspondence + first-principles quadrature oracle"),
- "C13": ("proof (partial): Sphere outside = Dipole with moment J*V/mu0; mesh/tetrahedron H = sum of triangle sheets by construction; other representation identities by whole-vs-parts oracle",
-         "identities between different closed forms are equivalent to C01 for both sides", "Lean 4 theorems over R + whole-vs-parts differential oracle on the real code"),
- "C14": ("proof (partial): Sphere interface conditions (normal B, tangential H continuous) and B - mu0 H = J inside; flux/circulation for general surfaces and loops by quadrature oracle",
-         "needs Gauss/Stokes for general surfaces (not in Mathlib) and C01 per class", "Lean 4 theorems over R + flux/circulation quadrature oracle on the real code"),
- "C17": ("proof (partial): the generic vector validator accepts exactly None-or-k-numbers (positive where documented) for every k; the per-attribute configuration table regenerated from the setters "
-         "is the documented one; rejected assignments keep the stored value; all other attributes by the grammar oracle on real setters and constructors",
-         "np.array(dtype=float) modelled as rectangular nesting of numeric leaves; scalar/orientation/segment/pixel validators oracle-only",
-         "Lean 4 theorems by structural induction over a value grammar + decide over the generated table + grammar x attribute differential oracle"),
- "C20": ("proof (partial): at flat-dictionary level the resolution of get_style is leafwise 'show kwarg, else object, else families (last listed first), else base' for any number of families; last assignment wins; "
-         "no default key contains the magic separator (generated DEFAULTS tree); notations/validation/independence/reset by the style oracle on every family",
-         "flat model of MagicProperties (validators and nested property objects not modelled)",
-         "Lean 4 theorems by induction over the family list + decide over the generated DEFAULTS tree + leaf x source x notation oracle"),
- "C18": ("proof (partial): at tree level copy() writes nothing to the original forest, the copy is parentless and its children are the clones in order; label iteration keeps the digit width; "
-         "equality, same field, heap disjointness and mutate-and-diff by the interpreter-level copy oracle for every class and collection trees",
-         "CPython heap (deepcopy, class-level mutables, numpy views) is outside the list model",
-         "Lean 4 theorems on a tree-level copy model + reachable-graph / np.shares_memory / mutate-and-diff oracle"),
- "C15": ("proof (partial): in exact arithmetic every divisor of the Dipole, Sphere and straight-segment closed forms is non-zero off the documented singular set; float range, NaN and loop termination "
-         "are decided by the watchdogged special-set oracle (faces/edges/corners/axis/wire/thresholds at +-ulp, denormals, zero-size sources, 1e12 distances); recorded findings listed by input class",
+ "C07": ("proof (partial): the functional interface's rank table (regenerated each run) is rank+1 for every parameter, hence single values are tiled and stacks taken per instance; getBH fails exactly on the documented input errors; output='dataframe' carries the documented (source, path, sensor, pixel) index in row-major order with the ndarray's values; method wrappers / core functions by cross-interface oracle",
+         'rank of one value read from a valid instance (generator); delegation glue not modelled',
+         'Lean 4 decide over the generated table + theorems on the marshalling model incl. the dataframe branch + exact correspondence (ndarray and dataframe) + cross-interface oracle at length scales 1e-9..1e4'),
+ "C02": ("proof: for every magnet wrapper's field-selector dispatch (core as a parameter, all mask combinations incl. surface/edge/special cases) and for Sphere, Dipole, Triangle, Tetrahedron (every observer, either vertex handedness) and Circle in full: B = mu0 H + J and J = mu0 M; Sphere's J is the indicator of the ball; the source's mu_0 sites are regenerated each run (one known finding: setter literal)",
+         'mask = geometric inside predicate proved for Sphere only; other classes by stratified oracle (boundary points, lattice points, joint mesh rows); exact real arithmetic',
+         'Lean 4 theorems (algebra over R with arbitrary mu0) on kernel/wrapper models + generated constant-site table + kern and trimesh correspondence + residual oracle'),
+ "C12": ('proof (partial): exact homogeneity in a common length factor, including the scale-freeness of every internal branch decision, for Dipole (-3), Sphere, straight segment (-1), Cuboid (factors, octant reflection, masks), Triangle (edge integral with its relative branch test, solid angle), Tetrahedron (chirality, inside test, all fields), Circle (-1, all special-case masks; cel opaque); other classes by rescaling oracle over 1e-9..1e9 and 2^+-33 with every mesh constructor',
+         'exact real arithmetic; Cylinder/CylinderSegment/TriangularMesh-inside-test kernels not ported',
+         'Lean 4 theorems over R on kernel ports tied by IEEE-double correspondence and pinned source literals + rescaling oracle'),
+ "C01": ('proof (partial): Dipole kernel = point-dipole formula = -grad of the scalar potential; the straight-segment kernel (normalisation, foot point, all three branches of its sin-theta case split) equals the Biot-Savart line integral for every observer off the carrier line (FTC + affine substitution); Circle on its axis = the loop integral; Sphere solution (with C13/C14); wrappers add exactly the interior term (C02); frame change (C03). Cuboid / Triangle family / Cylinder / CylinderSegment / Circle off axis vs their defining integrals: not shown by theorem, checked by numerical quadrature for all 10 classes',
+         'Mathlib lacks elliptic-integral theory and surface integrals over triangles/cylinder shells; exact real arithmetic',
+         'Lean 4 theorems (interval integrals via FTC, HasDerivAt, algebra) on kernel ports tied by IEEE-double correspondence (kern, poly streams) and pinned source literals (Gen.Tol) + first-principles quadrature oracle'),
+ "C13": ('proof (partial): Sphere outside = Dipole with moment J*V/mu0; a straight segment may be split at any collinear point and reversing it negates the field (from the Biot-Savart representation); Tetrahedron = its four outward sheets plus the inside term, with the same inside set before and after the chirality fix; mesh H = sum of sheets; other representation identities by whole-vs-parts oracle',
+         'identities between different closed forms are equivalent to C01 for both sides',
+         'Lean 4 theorems over R + kern correspondence + whole-vs-parts differential oracle on the real code'),
+ "C14": ('proof (partial): local forms — div B = 0 and curl H = 0 for the Dipole kernel and wrapper off its position and for the Sphere inside and outside; Sphere interface conditions and B - mu0 H = J inside; flux/circulation for general surfaces and loops and for the other classes by quadrature oracle',
+         'needs Gauss/Stokes for general surfaces (not in Mathlib) and C01 per class',
+         'Lean 4 theorems (HasDerivAt) over R + flux/circulation quadrature oracle on the real code'),
+ "C17": ("proof (partial): for every validator and setter of input_checks.py that is modelled (scalar, vector, vector2, vertices, cylinder segment, position, pixel, handedness): accepted <=> documented format (written separately), every rejection is the library's input error, stored = float copy, rejected assignments keep the state; per-attribute table, inner calls, segment conditions and statement skeletons regenerated from source each run; exceptions stated with witnesses (vector2 ValueError, coerced None/str entries: known findings)",
+         'np.array(dtype=float) modelled as rectangular nesting of numeric leaves; orientation / field_func / style arguments oracle-only',
+         'Lean 4 theorems by structural induction over a value grammar + decide over generated tables/skeletons + exact valid correspondence + grammar x attribute oracle'),
+ "C20": ("proof (partial): leafwise resolution 'show kwarg, else object, else families, else base' for any number of families; magic_to_dict terminates, is a trie, round-trips with linearize_dict; the three notations are equivalent (one non-dict value); update_nested_dict characterised leaf by leaf for all flag combinations incl. sharing; nested resolution = flat resolution; one witness of a recorded finding (dict-valued properties); validators, independence across plots, reset by the style oracle",
+         'validators of the concrete style classes and CPython attribute dispatch not modelled',
+         'Lean 4 theorems over ordered nested dictionaries + decide over the generated DEFAULTS tree + exact style correspondence + leaf x source x notation oracle'),
+ "C18": ('proof (partial): at tree level copy() preserves the forest invariant and acyclicity, the copy is a parentless isomorphic image of the subtree sharing no node with the original, the original is not written to; full specification of the label iteration; equality, same field, heap disjointness and mutate-and-diff by the interpreter-level copy oracle',
+         'CPython heap (deepcopy, class-level mutables, numpy views) is outside the list model',
+         'Lean 4 theorems on a tree-level copy model tied by the forest (copy op) and label correspondence + reachable-graph / np.shares_memory / mutate-and-diff oracle'),
+ "C15": ("proof (partial): in exact arithmetic every divisor of the Dipole, Sphere, straight-segment and Circle closed forms is non-zero off the documented singular set and the Circle wrapper's masks cover that set; the Bulirsch iterations cel_iter0 / cel_iterv / cel_iter / cel0 terminate (AGM argument, explicit fuel bound; the hypothesis kc != 0 is sharp); float range, NaN and float loop termination are decided by the watchdogged special-set oracle; recorded findings listed by input class",
          "IEEE semantics are outside the real-number model; Lean's Float is opaque beyond + - * /",
-         "Lean 4 theorems over R on kernel ports + watchdogged special-point oracle on the real code"),
- "C16": ("proof (partial): an edge is reported open iff it does not lie in exactly two faces; the verdict is invariant under any permutation of faces and under rotating/flipping any face; "
-         "connected-subset detection modelled and compared exactly; self-intersection, inside test and outward re-orientation by the permutation/flip/derived-mesh oracle on the real class",
-         "float geometry (ray tests, absolute tolerances) is outside the combinatorial model",
-         "Lean 4 theorems over face-index lists (List.Perm/count) + exact correspondence of the combinatorial functions + mesh oracle"),
- "C19": ("proof (partial): placement maps a model vertex v to (R v scale + p) f, is inverted by the inverse pose and preserves extents; every SI prefix of the regenerated unit table has factor 10^-power; "
-         "model generators, trace merging, backends and non-mutation by the display oracle mapping plotly traces back through the pose",
-         "only the plotly backend and five classes are mapped back; backends are outside the model",
-         "Lean 4 theorems over a group action on a module + decide over the generated unit table + figure-trace oracle"),
+         'Lean 4 theorems over R on kernel ports (incl. the iteration as a fuel recursion) tied by IEEE-double correspondence + watchdogged special-point oracle on the real code'),
+ "C16": ("proof (partial): open edges = edges not in exactly two faces; connected-subset detection computes exactly the vertex-connected components (fuel proved sufficient); the orientation sweep leaves no edge traversed twice in the same direction on any orientable mesh, for every face order / initial flips / seed verdict (orientability shown necessary); all verdicts invariant under face permutation, rewinding, renumbering; self-intersection, inside test and 'consistent => outward' by the mesh oracle",
+         'float geometry (ray tests) is outside the combinatorial model',
+         'Lean 4 theorems over face-index lists + exact correspondence of get_open_edges / get_disconnected_faces_subsets / get_inwards_mask + mesh oracle'),
+ "C19": ('proof (partial): placement maps a model vertex v to (R v scale + p) f, is inverted by the inverse pose and preserves extents; unit table factors; frame selection (valid, sorted, de-duplicated, clipped indices; two natural claims shown false with witnesses); Cuboid / Tetrahedron / Prism / Pyramid index structure (corners, closedness, outward faces); sin/cos vertex coordinates, trace merging, backends and non-alteration by the display oracle',
+         'only the plotly backend is mapped back; backends are outside the model',
+         'Lean 4 theorems over a group action on a module + decide over generated tables + exact disp correspondence + figure-trace oracle'),
 }
 props = [json.loads(l) for l in open("properties.jsonl")]
 checks = []
@@ -101,7 +91,7 @@ for p in props:
         na.append({"property_id": i, "reason": "check not built yet (build in progress, DESIGN.md §9 build order)"})
 m = {
  "version": 1,
- "setup_cmd": f"{PY} translate/gen.py && cd lean && lake build MagpyVerif driver",
+ "setup_cmd": f"{PY} translate/gen.py && cd lean && lake build MagpyVerif driver " + " ".join(f"MagpyVerif.Props.{i}" for i in sorted(TEXT)),
  "hooks": {"guard": "MAGPYLIB_VERIF", "enable": "no build step: checks import magpylib from /repo's working tree with MAGPYLIB_VERIF=1 set",
            "baseline_off_cmd": "cd /repo && /venv/bin/python -m pytest -ra -q -p no:cacheprovider --timeout=900 --continue-on-collection-errors",
            "source_commits": [], "add_only": True},
